@@ -236,10 +236,17 @@ def gen_case(rng, tier, i):
     rng.shuffle(terms)
     p1 = list(range(n)); rng.shuffle(p1)
     p2 = list(range(n)); rng.shuffle(p2)
-    return {"terms": terms, "p1": p1, "p2": p2, "nsm": rng.choice(["custom", "rebind", "only"])}
+    return {"terms": terms, "p1": p1, "p2": p2, "nsm": rng.choice(["custom", "rebind", "only"]),
+            "delims": [[rng.randrange(len(DELIMS)), rng.random() < 0.35] for _ in range(3)]}
 
 
 # ------------------------------------------------------------------ namespace managers, node picklers
+
+
+# (what follows the term, Turtle/SPARQL statement around `{T}`): the term is followed directly by the delimiter
+DELIMS = [(" .", "<urn:s> <urn:p> {T} ."), (";", "<urn:s> <urn:p> {T}; <urn:q> <urn:o> ."),
+          (",", "<urn:s> <urn:p> {T}, <urn:o2> ."), (")", "<urn:s> <urn:p> ({T}) ."),
+          (".", "<urn:s> <urn:p> {T}."), ("\n", "<urn:s> <urn:p> {T}\n ."), (" ;", "<urn:s> <urn:p> {T} ; <urn:q> {T} .")]
 
 
 def _make_nsm(kind):
@@ -726,6 +733,9 @@ def _steps(case, ts):
         st += [("n3", i), ("rd", i), ("rt", i)]
         if isinstance(ts[i], (URIRef, Literal)):
             st.append(("rdq", i))
+    for n, i in enumerate([i for i in live if not isinstance(ts[i], Variable)][:3]):
+        d, q = (case.get("delims") or [[0, False]] * 3)[n]
+        st.append(("rdt", i, d, bool(q)))
     for i, tj in enumerate(case["terms"]):
         if tj["k"] == "lit" and _scalar(tj["lex"]) and _scalar(tj.get("dt") or "") and _scalar(tj.get("lang") or ""):
             st.append(("mk", i))
@@ -744,6 +754,88 @@ def _rdq(case, t):
     if not all(_scalar(p) and _scalar(str(ns)) for p, ns in nsm.namespaces()):
         return None
     return text, nsm
+
+
+def _rdt(case, t, d, q):
+    """(term text, statement tail after the term, prefix table, manager) for the grammar-level reader tie"""
+    nsm = None
+    if q and isinstance(t, (URIRef, Literal)):
+        r = _rdq(case, t)
+        if r is None:
+            return None
+        text, nsm = r
+    else:
+        text = _try(lambda: t.n3())
+        if isinstance(text, Exception) or not _text_in_scope(t) or not _scalar(text):
+            return None
+    if isinstance(t, BNode) and not _label_ok(str(t)):
+        return None
+    if isinstance(t, URIRef) and (not _absolute(str(t)) or any(ord(c) <= 0x20 for c in str(t))):
+        return None
+    stmt = DELIMS[d][1]
+    tail = stmt.split("{T}", 1)[1]
+    return text, stmt.replace("{T}", text), tail, nsm
+
+
+def _obj_of(triples):
+    from rdflib import RDF
+    s_, p_ = URIRef("urn:s"), URIRef("urn:p")
+    objs = [o for s, p, o in triples if s == s_ and p == p_ and o != URIRef("urn:o2")]
+    if len(objs) != 1:
+        return None
+    o = objs[0]
+    firsts = [x for s, p, x in triples if s == o and p == RDF.first]
+    return firsts[0] if firsts else o
+
+
+def _bgp_triples(x, out):
+    if isinstance(x, dict):
+        for k, v in x.items():
+            if k == "triples":
+                out.extend(v)
+            else:
+                _bgp_triples(v, out)
+    elif isinstance(x, (list, tuple)):
+        for v in x:
+            _bgp_triples(v, out)
+
+
+def _enc_read(r):
+    if isinstance(r, Exception):
+        return "exc"
+    if r is None:
+        return "none"
+    return "B *" if isinstance(r, BNode) else enc(r, True)
+
+
+def _rdt_impl(case, t, d, q):
+    r = _rdt(case, t, d, q)
+    if r is None:
+        return "rdt -"
+    text, stmt, tail, nsm = r
+    pre_t = "" if nsm is None else "".join("@prefix %s: <%s> .\n" % (p, ns) for p, ns in nsm.namespaces())
+    pre_s = "" if nsm is None else "".join("PREFIX %s: <%s>\n" % (p, ns) for p, ns in nsm.namespaces())
+    old = rdflib.NORMALIZE_LITERALS
+    rdflib.NORMALIZE_LITERALS = False
+    try:
+        def turtle():
+            g = Graph()
+            g.parse(data=pre_t + stmt, format="turtle")
+            return _obj_of(list(g))
+
+        def sparql():
+            from rdflib.plugins.sparql.algebra import translateQuery
+            from rdflib.plugins.sparql.parser import parseQuery
+            qq = translateQuery(parseQuery(pre_s + "SELECT * { " + stmt + " }"))
+            out = []
+            _bgp_triples(qq.algebra, out)
+            return _obj_of(out)
+        a = _enc_read(_try(turtle))
+        # K2: the SPARQL parser expands \uXXXX before tokenising — not what the grammar-level reader models
+        b = "-" if _U_ESC.search(text) else _enc_read(_try(sparql))
+    finally:
+        rdflib.NORMALIZE_LITERALS = old
+    return "rdt %s ## %s" % (a, b)
 
 
 def _exc_name(e):
@@ -801,6 +893,8 @@ def _impl_obs(st, case, ts):
         finally:
             rdflib.NORMALIZE_LITERALS = old
         return "rdq " + (_exc_name(raw) if isinstance(raw, Exception) else enc(raw, True))
+    if kind == "rdt":
+        return _rdt_impl(case, ts[st[1]], st[2], st[3])
     if kind == "rt":
         t = ts[st[1]]
         p = _try(lambda: pickle.loads(pickle.dumps(t)))
@@ -842,6 +936,14 @@ def model_lines(case):
             else:
                 text, nsm = q
                 lines.append("rdq 0 " + _cps(text) + "".join(" %s %s" % (_cps(p), _cps(str(ns))) for p, ns in nsm.namespaces()))
+        elif kind == "rdt":
+            r = _rdt(case, ts[st[1]], st[2], st[3])
+            if r is None:
+                lines.append("skip")
+            else:
+                text, stmt, tail, nsm = r
+                tbl = "" if nsm is None else "".join(" %s %s" % (_cps(p), _cps(str(ns))) for p, ns in nsm.namespaces())
+                lines.append("rdt 0 " + _cps(text + tail) + tbl)
         elif kind == "mk":
             tj = case["terms"][st[1]]
             if not _mk_modelled(tj):
@@ -882,6 +984,18 @@ def select_model_obs(case, out):
             res.append("rd " + ("-" if o == "bad-op" and _skipped(st, case, ts) else _fold_lang(o)))
         elif kind == "rdq":
             res.append("rdq " + ("-" if o == "bad-op" and _rdq(case, ts[st[1]]) is None else _fold_lang(o)))
+        elif kind == "rdt":
+            r = _rdt(case, ts[st[1]], st[2], st[3])
+            if r is None:
+                res.append("rdt -")
+            else:
+                text, stmt, tail, nsm = r
+                if " | " in o:
+                    tm, rest = o.split(" | ", 1)
+                    m = ("B *" if tm.startswith("B ") else _fold_lang(tm)) if _uncps(rest) == tail else "bad-rest:" + rest
+                else:
+                    m = o
+                res.append("rdt %s ## %s" % (m, "-" if _U_ESC.search(text) else m))
         elif kind in ("rt", "mk"):
             res.append(kind + " " + ("-" if o == "bad-op" and _skipped(st, case, ts) else o))
         elif kind == "sort":
